@@ -475,8 +475,8 @@ func (x *Exec) compareParts(op Op, exp Op, o *Observed) []string {
 		wo := Op(w.(map[string]interface{}))
 		body := x.Conc.Body(wo.Atoms("body"))
 		g := lp.Parts[i]
-		if g.PartNumber != wo.I("n") || g.Size != strconv.Itoa(len(body)) || g.ETag != quoteETag(body) {
-			add("part[%d]: got %+v, want n=%d size=%d etag=%s", i, g, wo.I("n"), len(body), quoteETag(body))
+		if g.PartNumber != x.Conc.PartNum(wo.I("n")) || g.Size != strconv.Itoa(len(body)) || g.ETag != quoteETag(body) {
+			add("part[%d]: got %+v, want n=%d size=%d etag=%s", i, g, x.Conc.PartNum(wo.I("n")), len(body), quoteETag(body))
 		}
 	}
 	if exp.Has("trunc") && lp.IsTruncated != exp.B("trunc") {
